@@ -161,7 +161,7 @@ func genAdv(prop string) func(rt *rapid.T) interface{} {
 			kinds = append(kinds, "ps-m1", "ps-m3-right", "ps-m3-wrong", "ps-m3-a0", "ps-m3-noA", "ps-m5-short", "ps-m5-random", "ps-m5-tampered", "ps-unknown-state", "ps-unknown-method",
 				"pv-m1", "pv-m1-short", "pv-m3-genuine", "pv-m3-short", "pv-m3-wrongseal", "pv-m3-badtlv", "pv-m3-unknown", "pv-m3-self", "pv-unknown-state", "get-acc", "put-val", "put-ev", "get-chars")
 		}
-		n := rapid.IntRange(1, 10).Draw(rt, "nops")
+		n := rapid.IntRange(1, tierScale(10)).Draw(rt, "nops")
 		for i := 0; i < n; i++ {
 			op := AdvOp{Conn: rapid.IntRange(0, nconn-1).Draw(rt, "conn"), Kind: rapid.SampledFrom(kinds).Draw(rt, "kind"), Arg: rapid.IntRange(0, 1000).Draw(rt, "arg")}
 			if strings.HasPrefix(op.Kind, "fuzz-") {
